@@ -478,7 +478,7 @@ class DataSet:
             self._mask.update({i: False for i in range(0, self._num_points)})
             return
 
-        mask = mask.copy()
+        mask = {int(i): bool(flag) for i, flag in mask.items()}
 
         for i in list(mask.keys()):
             if i < 0 or i >= self._num_points:
